@@ -21,6 +21,20 @@ pub fn seed_rng(seed: u64, s: i64) -> ScriptRng {
     if s == 1 { ScriptRng::seeded(seed ^ 0x1111) } else { ScriptRng::adversarial(seed ^ 0x2222, 1, u64::MAX) }
 }
 
+/// sample() of a freshly constructed value of registry entry `ei` on a copy of `rng`, evaluated in a
+/// new OS thread (no thread-local history): the history-free value of F(class, state)
+fn fresh_eval(ei: usize, rng: &ScriptRng) -> Option<(Result<Out, String>, ScriptRng)> {
+    let r0 = rng.clone();
+    std::thread::spawn(move || {
+        crate::util::install_quiet_panic_hook();
+        let reg = registry();
+        let obj = (reg[ei].make)()?;
+        let mut r = r0;
+        let o = guarded(|| obj.sample(&mut r));
+        Some((o, r))
+    }).join().ok().flatten()
+}
+
 pub fn run_instance(sched: &Value, ea: &Entry, eb: &Entry, ca: i64, cb: i64, seed: u64, out: &mut Vec<String>,
                     roundtrip: &dyn Fn(&dyn Obj) -> Option<Result<Box<dyn Obj>, String>>) -> bool {
     let (Some(a1), Some(b1), Some(a3)) = ((ea.make)(), (eb.make)(), (ea.make)()) else { return false };
@@ -40,13 +54,27 @@ pub fn run_instance(sched: &Value, ea: &Entry, eb: &Entry, ca: i64, cb: i64, see
         let post = sid.id(rng_key(rng));
         out.push(json!({"op": "sample", "o": o + 1, "r": rlabel, "pre": pre, "out": outid, "post": post, "res": res}).to_string());
     };
+    let mut fresh_done = [false; 3];
     for stp in sched.as_array().unwrap() {
         let op = stp["op"].as_str().unwrap();
         let o = stp["o"].as_i64().unwrap() as usize;
         let r = stp["r"].as_i64().unwrap() as usize;
         let a = stp["a"].as_i64().unwrap();
         match op {
-            "sample" => { let mut rr = rngs[r - 1].clone(); sample_ev(&objs, o - 1, &mut rr, r as i64, &mut sid, &mut oid, out); rngs[r - 1] = rr; }
+            "sample" => {
+                if !fresh_done[o - 1] {
+                    // history-free reference for this (class, state): fresh value, fresh thread
+                    fresh_done[o - 1] = true;
+                    let ei = if maker[o - 1] == 0 { ca } else { cb } as usize - 1;
+                    if let Some((res, post_rng)) = fresh_eval(ei, &rngs[r - 1]) {
+                        let pre = sid.id(rng_key(&rngs[r - 1]));
+                        let (rs, outid) = match res { Ok(x) => ("Ok".to_string(), oid.id(x.bits)), Err(p) => (format!("Panic: {}", p), 0) };
+                        let post = sid.id(rng_key(&post_rng));
+                        out.push(json!({"op": "sample", "o": o, "r": 0, "pre": pre, "out": outid, "post": post, "res": rs, "fresh": true}).to_string());
+                    }
+                }
+                let mut rr = rngs[r - 1].clone(); sample_ev(&objs, o - 1, &mut rr, r as i64, &mut sid, &mut oid, out); rngs[r - 1] = rr;
+            }
             "iter" => {
                 // shadow: two successive sample() calls on a scratch copy of the handle, logged with r = 0
                 let mut scratch = rngs[r - 1].clone();
@@ -74,6 +102,7 @@ pub fn run_instance(sched: &Value, ea: &Entry, eb: &Entry, ca: i64, cb: i64, see
                 }
             }
             "eq" => { let res = match objs[o - 1].eq_obj(objs[a as usize - 1].as_ref()) { None => if maker[o - 1] == maker[a as usize - 1] { -1 } else { 0 }, Some(true) => 1, Some(false) => 0 };
+                      if res == 0 && std::env::var("RDV_DEBUG").is_ok() { eprintln!("EQ0 {} vs {}\n  {}\n  {}", o, a, objs[o - 1].dbg(), objs[a as usize - 1].dbg()); }
                       out.push(json!({"op": "eq", "o": o, "a": a, "res": res}).to_string()); }
             "dbg" => { let h = did.id(objs[o - 1].dbg()); out.push(json!({"op": "dbg", "o": o, "h": h}).to_string()); }
             "rngclone" => { rngs[r - 1] = rngs[a as usize - 1].clone(); out.push(json!({"op": "rngclone", "r": r, "a": a}).to_string()); }
@@ -109,7 +138,12 @@ pub fn replay_with(args: &[String], roundtrip: &dyn Fn(&dyn Obj) -> Option<Resul
         for (i, ea) in reg.iter().enumerate() {
             // partner: another entry (different class), rotating with the schedule index
             let j = (i + 1 + si * 7) % reg.len();
-            let j = if j == i { (j + 1) % reg.len() } else { j };
+            let mut j = if j == i { (j + 1) % reg.len() } else { j };
+            if si % 2 == 0 {
+                // sibling: the neighbouring entry of the same family and float type (near-miss parameters)
+                let sib = |k: usize| reg[k].family == ea.family && reg[k].ft == ea.ft && k != i;
+                if i + 1 < reg.len() && sib(i + 1) { j = i + 1; } else if i > 0 && sib(i - 1) { j = i - 1; }
+            }
             buf.clear();
             if run_instance(sc, ea, &reg[j], i as i64 + 1, j as i64 + 1, seed.wrapping_add(si as u64), &mut buf, roundtrip) {
                 instances += 1; events += buf.len() as u64;
